@@ -35,7 +35,8 @@ RULE = ("Hypothesis-generated points, by construction inside the domain of the s
     "harness maps X(q), q(X), dX/dq (mpmath, 60 digits, tol 1e-40 relative to 1+sum|terms|): scalar tables round "
     "trip and equal geometry, base-vector tables orthonormal/det=+1/inverse=transpose/direct=via third/equal the "
     "harness frame, convert_point and convert_vector keep Cartesian position and components (also chained via a "
-    "third system), Lame coefficients and jacobian equal |dX/dq_i| and det dX/dq. "
+    "third system), Lame coefficients and jacobian equal |dX/dq_i| and det dX/dq; a second generated point ON the z axis "
+    "(rho = 0 / theta in {0, pi}, off the origin) is judged for convert_point only (Cartesian position kept). "
     "Non-trivial = point off all coordinate planes/axes and vector with >= 2 non-zero coefficients; distinct by "
     "hash of (system, coordinates, vector).")
 
@@ -269,7 +270,11 @@ def case_strategy(draw: Any) -> Any:
         # how the vector expression is written: a plain sum of components, or a non-numeric common factor times a
         # bracketed sum of two base vectors plus the third (SymPy keeps such a product unexpanded)
         "form": draw(st.sampled_from(("sum", "sum", "factored:s0", "factored:s1", "factored:sqrt2", "factored:pi"))),
-        "alone": draw(st.sampled_from((0, 1, 2)))}
+        "alone": draw(st.sampled_from((0, 1, 2))),
+        # a second point ON the z axis (rho = 0 / theta in {0, pi}; inside the declared domains rho >= 0, theta >= 0),
+        # off the origin: only convert_point is judged there (the azimuth is arbitrary and the base-vector tables are singular)
+        "axis": draw(st.one_of(st.none(), st.tuples(st.sampled_from(("cyl", "sph")), st.builds(_signed, st.sampled_from((1, -1)), _pos_rat()),
+            st.sampled_from((["pi", "1/3"], ["pi", "-3/4"], ["q", "1/2"], ["pi", "1/1"], ["q", "0/1"], ["q", "-2/1"]))).map(list)))}
 
 
 def valid(case: dict[str, Any]) -> bool:
@@ -717,7 +722,27 @@ def _judge(case: dict[str, Any]) -> list[tuple[str, str]]:
             if B != A:
                 guarded(f"float-scale:vector:{A}->{B}", lambda B=B: fvector(B))
                 guarded(f"float-scale:point:{A}->{B}", lambda B=B: fpoint(B))
-    for flag in ("__equals_true__", "__equals_false_on_equal_points__"):
+    # ---- (8) points on the z axis: convert_point keeps the Cartesian position ---------------------------------------------
+    ax = case.get("axis")
+    if ax:
+        asys, zs, phi_c = ax
+        zsym = sympy.Rational(zs)
+        coords = [0, exact_coord(phi_c), zsym] if asys == "cyl" else [abs(zsym), 0 if zsym > 0 else sympy.pi, exact_coord(phi_c)]
+        want_ax = [mpf(0), mpf(0), r3.frac(zs)]
+
+        def axis_point(B: str) -> None:
+            pB = convert_point(mkpoint(coords, S[asys]), S[B])
+            qB = point_coords(pB)
+            XB = X_of(B, qB)
+            if not vec_close(XB, want_ax):
+                bad(f"axis-point-position:{asys}->{B}", f"convert_point {asys}->{B} of the on-axis point {coords}: {_show(qB)} has Cartesian "
+                    f"position {_show(XB)} instead of {_show(want_ax)}")
+
+        for B in TYPES:
+            if B != asys:
+                guarded(f"axis-point:{asys}->{B}", lambda B=B: axis_point(B))
+        seen.add("__on_axis_point__")
+    for flag in ("__equals_true__", "__equals_false_on_equal_points__", "__on_axis_point__"):
         if flag in seen:
             out.append((flag, ""))
     return out
@@ -876,7 +901,7 @@ def run(ctx: Ctx) -> None:
         "Lame/jacobian of 3 systems")
     ctx.assumptions += [
         "the harness maps X(q), q(X), dX/dq typed in vp/checks/c15.py (verified against numerical differentiation at start-up) define the geometry; experimental spherical = (r, theta polar, phi azimuth)",
-        "points on the z axis (rho = 0, theta in {0, pi}) and the origin are outside the domain (base-vector tables divide by rho)",
+        "points on the z axis (rho = 0, theta in {0, pi}) are judged for convert_point from the cylindrical / spherical system only (Cartesian position kept): the azimuth is arbitrary there and the base-vector tables divide by rho; the origin is outside the domain",
         "angles are compared modulo 2 pi; AppliedPoint.equals (simplify-based) answering False on numerically equal points is counted, not judged",
         "library expressions are evaluated by substituting numbers for the base scalars and sympy.N at 70 digits; tolerance 1e-40 relative to 1+sum|terms|",
     ]
@@ -917,6 +942,8 @@ def _candidates(case: dict[str, Any]) -> Any:
                         yield cand
     if case.get("eq"):
         yield {**case, "eq": False}
+    if case.get("axis"):
+        yield {**case, "axis": None}
 
 
 def replay(case: dict[str, Any]) -> list[tuple[str, str]]:
